@@ -457,7 +457,10 @@ class SymEval:
             params = params[1:]
         for p, a in zip(params, args):
             env[p] = a
-        if len(args) > len(params):
+        va = f.node.args.vararg.arg if getattr(f.node.args, 'vararg', None) else None
+        if va is not None:
+            env[va] = tuple(args[len(params):])
+        elif len(args) > len(params):
             raise Unsupported('too many args for %s' % f.fq)
         for k, v in kwargs.items():
             env[k] = v
@@ -1073,11 +1076,23 @@ class SymEval:
             return self.eval(node.orelse, env)
         return self.join(self.eval(node.body, env), self.eval(node.orelse, env), node, 'ifexp')
 
+    def _elts(self, node, env):
+        out = []
+        for e in node.elts:
+            if isinstance(e, ast.Starred):
+                v = self.eval(e.value, env)
+                if not isinstance(v, (list, tuple)):
+                    raise Unsupported('star-unpacking of %r in a display' % (v,))
+                out.extend(v)
+            else:
+                out.append(self.eval(e, env))
+        return out
+
     def e_Tuple(self, node, env):
-        return tuple(self.eval(e, env) for e in node.elts)
+        return tuple(self._elts(node, env))
 
     def e_List(self, node, env):
-        return [self.eval(e, env) for e in node.elts]
+        return self._elts(node, env)
 
     def e_ListComp(self, node, env):
         if len(node.generators) != 1 or node.generators[0].ifs:
@@ -1799,6 +1814,18 @@ class SymEval:
             if axes is None:
                 return self.transpose(args[0])
             return self.permute(args[0], axes)
+        if q == 'numpy.swapaxes' and len(args) == 3 and not kwargs and \
+                all(isinstance(x, int) and not isinstance(x, bool) for x in args[1:]):
+            a_ = args[0]
+            if not isinstance(a_, SArray):
+                return a_
+            nd = a_.ndim
+            i_, j_ = (x + nd if x < 0 else x for x in args[1:])
+            if not (0 <= i_ < nd and 0 <= j_ < nd):
+                raise RuntimeFailure('np.swapaxes: axis out of range for %d dimensions' % nd)
+            axes = list(range(nd))
+            axes[i_], axes[j_] = axes[j_], axes[i_]
+            return self.permute(a_, axes)
         if q == 'numpy.einsum' and isinstance(args[0], str) and len(args) == 3:
             if any(isinstance(x, Opaque) for x in args[1:]):
                 return Opaque('einsum', *args)      # an operand the model does not look into
@@ -1852,6 +1879,9 @@ class SymEval:
                 args[0] and all(isinstance(x, (Rat, int, float)) and not isinstance(x, bool)
                                 for x in args[0]):
             ax = kwargs.get('axis', args[1] if len(args) > 1 else 0)
+            if q == 'numpy.stack' and ax == 0 and 'axis' not in kwargs and len(args) == 1:
+                # per-sample scalars along a NEW leading axis: (k, n), exactly np.vstack
+                return self.call_ext('numpy.vstack', [args[0]], {}, node)
             if q == 'numpy.column_stack' or ax in (-1, 0, 1):
                 # scalars of the generic sample stacked along the last (component) axis
                 return SArray((len(args[0]),), {(i,): self.rat(x) for i, x in enumerate(args[0])})
